@@ -150,7 +150,7 @@ UpdNev(m, e) ==
 
 UpdDev(m, e) ==
   LET d == e[2] op == e[3] IN
-  IF d \notin Devices THEN m ELSE IF e[4] = "raise" THEN [m EXCEPT !.faulty = TRUE, !.devErrPending = TRUE]
+  IF d \notin Devices THEN m ELSE IF e[4] = "raise" THEN [m EXCEPT !.faulty = TRUE, !.devErrPending = TRUE, !.replaying = FALSE, !.expect = <<>>, !.c04off = TRUE]
   ELSE CASE op = "stage" -> [m EXCEPT !.dev[d].stg = @ + 1]
          [] op = "read" ->
               IF m.curRun \in RunKeys /\ m.bundle[m.curRun].open
@@ -221,7 +221,8 @@ UpdMsg(m0, e) ==
             ELSE IF cmd \in Uncacheable \/ ~m1.rewFlag \/ ~m1.ckpt THEN m1
             ELSE [m1 EXCEPT !.since = Append(@, mid)]
       \* C09: after the checkpoint that consumes a deferred pause no further message may be executed before the pause
-      m3a == ViolIf(m2, m.deferCkpt /\ cmd # "checkpoint", "C09:message-after-deferred-checkpoint")
+      m3a == ViolIf(m2, m.deferCkpt /\ cmd \notin {"checkpoint", "_start_suspender", "rewindable", "wait_for", "_resume_from_suspender"},
+                    "C09:message-after-deferred-checkpoint")
       m3 == ViolIf(m3a, m.failPending /\ cmd = "checkpoint", "C12:status-failure-after-checkpoint")
       \* C11: while a suspension holds the plan only the helper's own messages (pre-plan, wait) may run
       m4a == IF cmd = "wait_for" /\ m3.susp # {} THEN [m3 EXCEPT !.suspWait = TRUE] ELSE
@@ -230,10 +231,15 @@ UpdMsg(m0, e) ==
       m4 == IF cmd = "_start_suspender" /\ m4a.ckpt
             THEN [m4a EXCEPT !.bundle = [k \in RunKeys |-> [m4a.bundle[k] EXCEPT !.open = FALSE]], !.rew = @ + 1, !.expect = m4a.since \o m4a.expect, !.replaying = (m4a.since \o m4a.expect # <<>>), !.since = <<>>]
             ELSE m4a
-      \* a suspension starts: every moved device must be stopped (C11), one interruption record per open run (C40)
-      m4s == IF cmd = "_start_suspender" /\ m4.susUsed
-             THEN ViolIf([m4 EXCEPT !.trips = IF @ > 0 THEN @ - 1 ELSE 0], m4.trips = 0, "C31:suspended-without-tripped-suspender")
+      \* a pause requested by the plan itself (Msg('pause')): same bookkeeping as an external request
+      m4p == IF cmd = "pause" /\ m4.st = "running"
+             THEN (IF a = "T" THEN [m4 EXCEPT !.deferPending = TRUE]
+                   ELSE IF ~m4.ckpt THEN [m4 EXCEPT !.failedPause = TRUE] ELSE m4)
              ELSE m4
+      \* a suspension starts: every moved device must be stopped (C11), one interruption record per open run (C40)
+      m4s == IF cmd = "_start_suspender" /\ m4p.susUsed
+             THEN ViolIf([m4p EXCEPT !.trips = IF @ > 0 THEN @ - 1 ELSE 0], m4p.trips = 0, "C31:suspended-without-tripped-suspender")
+             ELSE m4p
       m5 == IF cmd = "_start_suspender"
             THEN [m4s EXCEPT !.suspStopDue = {d \in Devices : m4.dev[d].dirty},
                             !.runs = [o \in 1..MaxRuns |-> IF m4.runs[o].started /\ m4.runs[o].stopped = 0 /\ m4.recIntr
@@ -305,7 +311,12 @@ UpdState(m, e) ==
              THEN [m1 EXCEPT !.runs = [r \in 1..MaxRuns |-> IF m1.runs[r].started /\ m1.runs[r].stopped = 0
                                                             THEN [m1.runs[r] EXCEPT !.intrWant = @ + 1] ELSE m1.runs[r]]]
              ELSE m1
-      m2 == [m1b EXCEPT !.pausedNow = (n = "paused"), !.st = n, !.curRun = "none"]
+      \* a terminating request whose coroutine has run (state change seen) counts as accepted even if its caller is still blocked
+      lastq == IF Len(m1b.reqs) > 0 THEN m1b.reqs[Len(m1b.reqs)] ELSE [kind |-> "", pc |-> "", st |-> "", res |-> TRUE, out |-> "x", after |-> ""]
+      m1c == IF n \in {"aborting", "stopping", "halting"} /\ lastq.kind \in {"abort", "stop", "halt"} /\ lastq.out = ""
+             THEN (IF lastq.pc = "tail" THEN [m1b EXCEPT !.termLate = @ \cup {lastq.kind}] ELSE [m1b EXCEPT !.term = @ \cup {lastq.kind}])
+             ELSE m1b
+      m2 == [m1c EXCEPT !.pausedNow = (n = "paused"), !.st = n, !.curRun = "none"]
       \* C09: the pause that follows a deferred request: nothing to replay
       m3 == IF n = "paused" /\ m.deferCkpt THEN ViolIf([m2 EXCEPT !.deferPending = FALSE, !.deferCkpt = FALSE], m.since # <<>>, "C09:replay-after-deferred-pause")
             ELSE IF n = "pausing" /\ ~m.deferCkpt THEN [m2 EXCEPT !.deferPending = FALSE] ELSE m2
@@ -342,8 +353,11 @@ UpdRet(m, e, s2) ==
                                             \* (a plan that closes its run itself after abort/stop/halt chooses the status: not compared)
                                             /\ (m.runs[o].engineClosed \/ (m.term = {} /\ m.termLate = {})), "C42:span-status-differs")
              ELSE mm1
+      \* C09: a deferred pause that met no checkpoint stays reported as pending until the next plan starts
+      mmD == ViolIf(mmS, st = "idle" /\ m.deferPending /\ ~m.deferCkpt /\ m.term = {} /\ m.termLate = {} /\ ~m.failedPause /\ e[5] # "D",
+                    "C09:pending-deferred-pause-not-reported")
       \* C11: the caller stays blocked while a suspension is in effect
-      mm2 == ViolIf(mmS, m.suspWait /\ m.term = {} /\ m.termLate = {} /\ ~m.failedPause /\ outcome \in {"ok", "interrupted"} /\ st # "paused", "C11:returned-during-suspension")
+      mm2 == ViolIf(mmD, m.suspWait /\ m.term = {} /\ m.termLate = {} /\ ~m.failedPause /\ outcome \in {"ok", "interrupted"} /\ st # "paused", "C11:returned-during-suspension")
       \* C12: a failed status must not be lost; an unhandled plan/device error is what the call raises
       mm3 == ViolIf(mm2, m.failPending /\ outcome = "ok", "C12:status-failure-lost")
       m0 == ViolIf(mm3, m.planRaised \in {"raise:DevErr", "raise:PlanErr", "raise:FailedStatus", "raise:IMS"} /\ st = "idle"
@@ -447,7 +461,7 @@ Upd(m, e, s, s2) ==
     [] k = "req" -> UpdReq(m, e, s)
     [] k = "reqret" -> UpdReqRet(m, e, s2)
     [] k = "call" -> UpdCall(m, e, s)
-    [] k = "stat" -> IF e[7] = 0 THEN [m EXCEPT !.faulty = TRUE, !.failPending = ~m.planDone] ELSE m
+    [] k = "stat" -> IF e[7] = 0 THEN [m EXCEPT !.faulty = TRUE, !.failPending = ~m.planDone, !.replaying = FALSE, !.expect = <<>>, !.c04off = TRUE] ELSE m
     [] k = "dsc" -> UpdDsc(m, e)
     [] k = "cfg" -> UpdCfg(m, e)
     [] k = "dat" -> UpdDat(m, e)
@@ -478,7 +492,7 @@ C07Settled == {"C07:not-settled:running", "C07:not-settled:pausing", "C07:not-se
 C08Tags == {"C08:interrupted-but-idle", "C08:interrupted-but-paused", "C08:interrupted-but-running", "C08:interrupted-but-pausing",
             "C08:interrupted-but-suspending", "C08:interrupted-but-aborting", "C08:interrupted-but-stopping", "C08:interrupted-but-halting",
             "C08:normal-return-without-completion"}
-C09Tags == {"C09:message-after-deferred-checkpoint", "C09:replay-after-deferred-pause"}
+C09Tags == {"C09:pending-deferred-pause-not-reported", "C09:message-after-deferred-checkpoint", "C09:replay-after-deferred-pause"}
 C10Tags == {"C10:paused-after-failed-pause", "C10:not-reported"}
 C11Tags == {"C11:plan-ran-while-suspender-tripped", "C11:moved-not-stopped-at-suspension", "C11:plan-resumed-during-suspension", "C11:returned-during-suspension"}
 C12Tags == {"C12:device-error-not-delivered", "C12:status-failure-after-checkpoint", "C12:status-failure-lost", "C12:unhandled-exception-not-raised"}
